@@ -48,7 +48,14 @@ def cases(tier, seed, info):
     for j in range(64 if tier == 'quick' else 6000):      # no callout subsection at all
         items.append(dict(shapes=None, k=k + j))
     out = [dict(seed=seed * 8191 + j, items=items[j:j + 20]) for j in range(0, len(items), 20)]
-    info['pels'] = len(items)
+    # the same kind of PELs decoded in a fresh interpreter in which registry and component names are found by the
+    # tool's own loaders (a pel_registry package with the files next to it)
+    nf = 3 if tier == 'quick' else 40
+    for j in range(nf):
+        out.append(dict(seed=seed * 8191 + 100000 + j, fresh=True,
+                        items=[dict(shapes=items[(j * 16 + q) % len(items)]['shapes'], k=4 * (j * 16 + q)) for q in range(16)]))
+    info['pels'] = len(items) + 16 * nf
+    info['fresh_interpreter_runs_with_loaded_registry'] = nf
     return out
 
 
@@ -125,7 +132,58 @@ def build(rng, it):
     return pel
 
 
+def _fresh_case(case):
+    import json
+    import os
+    import shutil
+    import subprocess
+    from ..framework import REPO, VERIF
+    from .. import seams, encode
+    rng = random.Random(case['seed'])
+    d = os.path.join(seams.scratch_dir('c03'), 'regpkg')
+    shutil.rmtree(d, ignore_errors=True)
+    pkg = os.path.join(d, 'pel_registry')
+    os.makedirs(pkg)
+    pels_json, registry = [], []
+    for e in REG:
+        doc = dict(Message=e['message'])
+        if e['args']:
+            doc['MessageArgSources'] = ['SRCWord%d' % a for a in e['args']]
+        pels_json.append(dict(SRC=dict(ReasonCode='0x' + e['reason'], Type=e['type']), Documentation=doc))
+        registry.append(dict(type=[ord(c) for c in e['type']], reason=[ord(c) for c in e['reason']],
+                             message=[ord(c) for c in e['message']], args=e['args']))
+    with open(os.path.join(pkg, 'message_registry.json'), 'w') as f:
+        json.dump(dict(PELs=pels_json), f)
+    with open(os.path.join(pkg, '__init__.py'), 'w') as f:
+        f.write('import os\n\n\ndef get_registry_path():\n'
+                '    return os.path.join(os.path.dirname(__file__), "message_registry.json")\n')
+    tables = {'O': {'1000': 'bmc common function', '2700': 'bmc power'}, 'B': {'0100': 'hb trace'}}
+    names = []
+    for cr, t in tables.items():
+        with open(os.path.join(pkg, cr + '_component_ids.json'), 'w') as f:
+            json.dump(t, f)
+        for kx, v in t.items():
+            names.append(dict(creator=ord(cr), comp=[ord(c) for c in kx], name=[ord(c) for c in v]))
+    pels = [build(rng, it) for it in case['items']]
+    p = subprocess.run(['/venv/bin/python', os.path.join(VERIF, 'harness', 'c03_fresh.py')],
+                       input=json.dumps(dict(repo=REPO, verif=VERIF, dir=d, pels=[bytes(encode.encode(x)).hex() for x in pels])),
+                       stdout=subprocess.PIPE, stderr=subprocess.PIPE, text=True, timeout=120,
+                       env=dict(os.environ, PYTHONDONTWRITEBYTECODE='1', PYTHONWARNINGS='ignore'))
+    shutil.rmtree(d, ignore_errors=True)
+    if p.returncode != 0:
+        # the fresh interpreter died: whatever it was, it happened inside the tool's loaders / decoder
+        return [dict(shape_ok=False, crashed=True, crash='fresh interpreter failed', where='c03_fresh',
+                     case=p.stderr[-400:])]
+    results = json.loads(p.stdout.strip().splitlines()[-1])
+    env = dict(names=names, registry=registry)
+    return [pelrun.observe(pel, 'C03', plugins=False, standalone=False, env=env, res=res,
+                           extra=dict(loaded_by='the tool itself'))
+            for pel, res in zip(pels, results)]
+
+
 def run_case(case):
+    if case.get('fresh'):
+        return _fresh_case(case)
     rng = random.Random(case['seed'])
     recs = []
     for it in case['items']:
